@@ -52,6 +52,13 @@ HISTORY = {
     "C12-signed-const-magnitude-check": "missed by C12 at first (C09 caught it): wrongly typed constants were six fixed literals for a u8 / usize constant; supplied-value menu added: every constant type x every boundary literal (MIN-1..MAX+1) of every number type, unspecified numbers and non-numbers, with acceptance, refusal and literal-substitution oracles",
     "C14-nested-assign-mux-index-bits": "missed at first: assignments through an index followed by further accessors only occurred with arrays of length 2; place programs (tuple / struct / array / array-in-tuple elements) for every array length 1..9 (thorough up to 33) and every index added to family A",
     "C17-unify-unspecified-with-non-number": "missed at first: operands were only replaced by a value of a fresh nominal type, never by an unsuffixed number; sweep KindMeetsType added: 30 paths by which an expression meets its expected type x 9 types x holes (unsuffixed / let-bound numbers for non-number types; Booleans, units, arrays for number types), each with a well-typed twin",
+    "C05-unspecified-literal-any-width-const": "missed by C05 at first (C12 and C09 caught it): C05 never supplied constants from outside; C12's supplied-value menu now also runs in C05 and reports an output width that differs from the declared return type",
+    "C07-empty-match-parsed": "missed at first: single-token edits never empty a bracketed group; perturbations empty-group (everything between a matching pair of brackets removed), group-delete and span-delete (2 and 3 neighbouring tokens) added - they exposed a genuine defect of the unchanged tree (min() / max() without arguments)",
+    "C09-struct-dup-nonadjacent": "missed at first: only one duplicated-field spelling (adjacent, 2nd := 1st); every sequence of n-1, n and n+1 fields drawn from the struct's own fields is now enumerated for structs of up to 3 fields (exactly the permutations are values)",
+    "C12-callee-params-in-const-scope": "missed by C12 at first (C14 and C01 caught it): constants were only read in main; use template ValueThroughCalls (constant read by the callee of a function whose parameter has the constant's name) added",
+    "C13-mux-panic-cache-union": "missed by C13 at first (C02 caught it): the failing operation of every join loop body depended on the joined rows; loops with a row-independent failing operation (100 / d, d a third parameter) added for all table sizes up to 3 x 3 (thorough 4 x 4)",
+    "C15-sorter-dedup-off": "missed at first: no program computed the same join twice; 22 constructs (every operator class, index, if, match, comparisons of aggregates, both join forms) x 5 ways of computing them twice on the same wires are now scanned structurally, with de-duplication on and off",
+    "C17-enum-pattern-too-few-fields": "missed at first: enum patterns only ever got one sub-pattern too many; arity -1 (last / first sub-pattern dropped), a sub-pattern for a unit variant, and five hand-written texts (match, let, for, nested, empty parentheses) added",
     "C17-match-arms-share-scope": "missed at first: UseAfterScope only covered loop variables and block locals; replaced by a reference model of lexical scoping (every use x every name bound elsewhere but not in scope)",
 }
 rows = []
